@@ -81,6 +81,14 @@ STRENGTHENED = [
     ("seeded/C17-g", "the receiver of a method-form operator is only visited when it is itself a call", "C17: sequences reached through an index, a conditional or an attribute of a holder object (`x.Select(f)[0].Count()`, `box(s).seq.Sum()`), also in three exhaustive positions"),
     ("seeded/C18-g", "absent attribute on a dict literal that arrives by substitution returns the unvisited (dangling) parameter", "typed generator: every odd projection may reach its literal through a called lambda or First(Select(..)); C18's classifier of permitted index errors follows those bindings"),
     ("seeded/C20-g", "hash rendered from vars(node) in insertion order: nodes built with fields in another order hash differently", "C20: equal-structure rendering with every node re-created and its fields assigned in reverse order"),
+    ("seeded/C01-h", "constant folding of conditionals in the simplifier chooses the branch with `is True` (a truthy non-bool test takes the wrong arm)", "typed generator: the test of a conditional may be a constant of another type (1, 2, 0, 1.5, 0.0, 'on', ''); C02 and C01 catch it"),
+    ("seeded/C02-h", "the scope stack of the renaming pass is wiped at a parameterless lambda (`del stack[-0:]`)", "typed generator: parameterless called lambdas `(lambda: X)() + Y` with a use of the variables in scope to their right"),
+    ("seeded/C03-h", "docstring filter of one-line functions also drops constant assignments (and refuses `return <literal>`)", "C03 families: a def with a constant assignment before its return (module global of the same name present or not), a one-line def returning a literal"),
+    ("seeded/C06-h", "capture check of called lambdas ignores a name that an argument both binds and uses free", "C05: the operator lambda around a helper call may bind the very name that a lambda / comprehension inside the helper binds, the arguments using it free and as a binder of their own (caught by C05; the mechanism lives in the helper-inlining code)"),
+    ("seeded/C07-h", "a lambda parameter spelled like a registered function is typed Callable", "C07: lambda parameter pools with fn, mk, mks, abs, len"),
+    ("seeded/C08-h", "and/or typed by its operands when they agree", "C08: and/or over operands that are not bool (two numbers, a number and anything)"),
+    ("seeded/C09-h", "only a literal-constant index unwraps a typed sequence ([-1] is a UnaryOp)", "C09: receivers picked out of a typed sequence by a constant index 0 / 1 / -1 / -2"),
+    ("seeded/C10-h", "conditional with a numeric true branch and an untyped false branch refused (order dependent)", "C10 classifier: a branch about which nothing can be known on an untyped stream (variable, attribute chain, method call on one) is compatible with itself and with numbers, in either order: must pass"),
     ("seeded/C08-c", "generic subclass with more type parameters than its base uses", "C08 skeleton: Tag(Box[K], Generic[K,V]), Tag2(Box[V], ...), Swap(Pair[U,T], ...), HalfPair(Pair[T,int]), It2(Iterable[V], ...), TagInts(Tag[int,V]); class names taken from typing. This extension also exposed the genuine defects D29 and D30"),
 ]
 
